@@ -348,9 +348,9 @@ func recursionGuard(rc *core.RC, f *ssa.Function) string {
 }
 
 // sccRule evaluates the recursion rule on the SCCs reachable from roots.
-func sccRule(rc *core.RC, roots []*ssa.Function, what string) {
+func sccRule(rc *core.RC, roots []*ssa.Function, what string, only func(*ssa.Function) bool) {
 	p := rc.P
-	if len(roots) < 5 {
+	if len(roots) < 3 {
 		rc.Unknown("json/entry-points", token.NoPos, "only %d %s entry points resolved", len(roots), what)
 		return
 	}
@@ -374,6 +374,9 @@ func sccRule(rc *core.RC, roots []*ssa.Function, what string) {
 		}
 		key := "scc{" + strings.Join(shortNames(names), ",") + "}"
 		if !reachable {
+			continue
+		}
+		if only != nil && !only(comp[0]) {
 			continue
 		}
 		if carrier == "" {
@@ -439,7 +442,7 @@ func shortNames(ns []string) []string {
 	return out
 }
 
-func c06r2(rc *core.RC) { sccRule(rc, entryRoots(rc, decodeEntryNames), "decoding/utility") }
+func c06r2(rc *core.RC) { sccRule(rc, entryRoots(rc, decodeEntryNames), "decoding/utility", nil) }
 
 // ---- C06.R3 reflect kind preconditions ----
 
